@@ -2,7 +2,6 @@ package parse
 
 import (
 	"bytes"
-	"errors"
 )
 
 // A tagParser can parse the body of a tag, returning the resulting Node or an error.
@@ -251,6 +250,7 @@ func parseIfBody(t *Tree, start Pos) (body *BodyNode, els *BodyNode, err error) 
 //	{% endfor %}
 func parseFor(t *Tree, start Pos) (*ForNode, error) {
 	var kn, vn string
+	first := t.peekNonSpace()
 	nam, err := t.parseInnerExpr()
 	if err != nil {
 		return nil, err
@@ -258,12 +258,13 @@ func parseFor(t *Tree, start Pos) (*ForNode, error) {
 	if nam, ok := nam.(*NameExpr); ok {
 		vn = nam.Name
 	} else {
-		return nil, errors.New("parse error: a parse error occured, expected name")
+		return nil, newUnexpectedTokenError(first, tokenName)
 	}
 	nxt := t.peekNonSpace()
 	if nxt.tokenType == tokenPunctuation && nxt.value == "," {
 		t.next()
 		kn = vn
+		first = t.peekNonSpace()
 		nam, err = t.parseInnerExpr()
 		if err != nil {
 			return nil, err
@@ -271,7 +272,7 @@ func parseFor(t *Tree, start Pos) (*ForNode, error) {
 		if nam, ok := nam.(*NameExpr); ok {
 			vn = nam.Name
 		} else {
-			return nil, errors.New("parse error: a parse error occured, expected name")
+			return nil, newUnexpectedTokenError(first, tokenName)
 		}
 	}
 	tok := t.nextNonSpace()
@@ -289,7 +290,7 @@ func parseFor(t *Tree, start Pos) (*ForNode, error) {
 	var ifCond Expr
 	if tok.tokenType == tokenName {
 		if tok.value != "if" {
-			return nil, errors.New("parse error: a parse error occured")
+			return nil, newUnexpectedValueError(tok, "if")
 		}
 		ifCond, err = t.parseExpr()
 		if err != nil {
